@@ -250,7 +250,8 @@ func famAtomic(t *testing.T) {
 		if ci%sn != si {
 			continue
 		}
-		t.Run(c.ID, func(t *testing.T) {
+		// (the subtest name becomes part of the sqlite file: URI; testing's "#01" suffix for a repeated name would cut that URI short)
+		t.Run(fmt.Sprintf("c%d-%s", ci, c.ID), func(t *testing.T) {
 			e := newStoreEnv(t, storeNamespaces(), *fSeed)
 			initial, req := c.build()
 			e.setInitial(initial)
